@@ -68,8 +68,11 @@ def jobs(prop: str, tier: str, seed: int):
         b = dict(depth=2, width=2, strlen=2, budget=1)
         for o in ({"call_schema": [list(c) for c in cs]}, {"call_validators": True}, {"call_schema": [list(c) for c in cs], "call_validators": True}):
             out.append(dict(harness=prop, pool="data", pid=pid, opts=o, bounds=b, budget_s=30 if tier == "quick" else 120))
-    for pid in pools.ids("data", tier) + pools.random_ids(seed, 8 if tier == "quick" else 60):
-        spec, _ = pools.get("data", pid)
+    data_ids = pools.ids("data", tier)
+    todo = [("data", pid) for pid in data_ids + pools.random_ids(seed, 8 if tier == "quick" else 60)]
+    todo += [("union", pid) for pid in pools.ids("union", tier) if pid not in data_ids and not pid.startswith("tagged")]
+    for pool, pid in todo:
+        spec, _ = pools.get(pool, pid)
         optsets = [{}]
         if has_obj(spec):
             optsets = OBJ_OPTS if tier == "thorough" else OBJ_OPTS[:4]
@@ -87,7 +90,7 @@ def jobs(prop: str, tier: str, seed: int):
                 b = dict(depth=3, width=2 if big else 3, strlen=3, budget=2 if big else 3)
                 budget_s = 120
             out.append(
-                dict(harness=prop, pool="data", pid=pid, opts=o, bounds=b, budget_s=budget_s)
+                dict(harness=prop, pool=pool, pid=pid, opts=o, bounds=b, budget_s=budget_s)
             )
     return out
 
